@@ -375,7 +375,11 @@ class Fn:
 
     # -- emission helpers
     def emit(self, s):
-        self.lines.append(s)
+        # every emitted line carries its own #line so that CBMC reports /repo source lines
+        if self.cur_line is not None:
+            self.lines.append('#line %d "%s"\n%s' % (self.cur_line[1], self.cur_line[0], s))
+        else:
+            self.lines.append(s)
 
     def tmp(self, pfx='vf_t'):
         self.tmpn += 1
@@ -389,7 +393,6 @@ class Fn:
         f, l = node_line(n)
         if f and l and (f, l) != self.cur_line:
             self.cur_line = (f, l)
-            self.emit('#line %d "%s"' % (l, f))
 
     def unsupported(self, what, n):
         f, l = node_line(n)
@@ -454,6 +457,8 @@ class Fn:
     # -- body
     def lower(self):
         sig = self.signature()
+        self.sig = sig
+        self.mark(self.n)
         self.emit(sig)
         self.emit('{')
         if self.kind == 'CXXConstructorDecl':
@@ -468,7 +473,7 @@ class Fn:
         elif self.cret.endswith('*'):
             self.emit('return (%s)0;' % self.cret)
         else:
-            self.emit('{ %s vf_dummy; return vf_dummy; }' % self.cret)
+            self.emit('{ %s vf_dummy VF_DUMMY_INIT; return vf_dummy; }' % self.cret)
         self.emit('}')
         missing = set(self.loop_contracts) - self.used_loop_contracts
         if missing:
@@ -1739,7 +1744,9 @@ class Emitter:
         p = self.prog
         out = []
         w = out.append
-        w('/* GENERATED by extract/lower.py from the clang AST of %s/src/*.cpp - do not edit */' % p.repo)
+        w('/* GENERATED by extract/lower.py from the clang AST of the C++ sources under %s/src - do not edit */' % p.repo)
+        w('#ifndef VF_LOW_H')
+        w('#define VF_LOW_H')
         w('#include "vf_std.h"')
         order = self.class_order()
         for c in order:
@@ -1793,13 +1800,18 @@ class Emitter:
             f = Fn(p, tu, node, ln, self.loop_contracts)
             text = f.lower()
             bodies.append(text)
-            sigs.append(f.lines[0] + ';')
+            sigs.append(f.sig + ';')
         for c in order:
             w('void %s__copy_ctor(struct %s *self, const struct %s *o);' % (c, c, c))
             w('void %s__assign(struct %s *self, const struct %s *o);' % (c, c, c))
             w('void %s__default_ctor(struct %s *self);' % (c, c))
         for s in sigs:
             w(s)
+        w('#endif')
+        header = '\n'.join(out) + '\n'
+        del out[:]
+        w('/* GENERATED by extract/lower.py - do not edit */')
+        w('#include "low.h"')
         # special members
         for c in order:
             self.emit_specials(c, w)
@@ -1814,7 +1826,8 @@ class Emitter:
         unknown = set(self.loop_contracts) - set(p.order)
         if unknown:
             raise ExtractionError('EXTRACTION-UNSUPPORTED loop contracts for unknown functions %s' % sorted(unknown))
-        return '\n'.join(out) + '\n'
+        self.functions = list(p.order)
+        return header, '\n'.join(out) + '\n'
 
     def vec_hook(self, t, which):
         """Names of the element hooks used by the vector model: default-init, copy, relocate."""
@@ -1912,7 +1925,7 @@ def main():
     ap = argparse.ArgumentParser()
     ap.add_argument('--repo', default='/repo')
     ap.add_argument('--loops', default=None, help='JSON: {lowered function: {loop ordinal: [contract clause, ...]}}')
-    ap.add_argument('-o', '--out', required=True)
+    ap.add_argument('-o', '--out', required=True, help='output directory (low.h, low.c)')
     ap.add_argument('--list', action='store_true')
     a = ap.parse_args()
     lc = {}
@@ -1920,11 +1933,14 @@ def main():
         lc = json.load(open(a.loops))
     try:
         em = Emitter(a.repo, lc)
-        text = em.emit()
+        header, text = em.emit()
     except ExtractionError as e:
         sys.stderr.write(str(e) + '\n')
         sys.exit(2)
-    with open(a.out, 'w') as f:
+    os.makedirs(a.out, exist_ok=True)
+    with open(os.path.join(a.out, 'low.h'), 'w') as f:
+        f.write(header)
+    with open(os.path.join(a.out, 'low.c'), 'w') as f:
         f.write(text)
     if a.list:
         for ln in em.prog.order:
